@@ -48,7 +48,7 @@ def one_sided(values, exact, scale, floor):
 # --------------------------------------------------------------------------------------
 # scenario rows
 # --------------------------------------------------------------------------------------
-def row_harmonic(rnd, hmc=False, single_composite=False):
+def row_harmonic(rnd, hmc=False, single_composite=False, large_dt=False):
     N = 1 if single_composite else rnd.randint(1, 4)
     L = gen.rfloat(rnd, 7.0, 10.0, 3)
     cell = [[L, 0, 0], [0, L, 0], [0, 0, L]]
@@ -78,7 +78,9 @@ def row_harmonic(rnd, hmc=False, single_composite=False):
         from ase.data import atomic_masses
         m = min(atomic_masses[z] for z in numbers)
         period_fs = 2 * math.pi * math.sqrt(m / k) * ASE_TIME_FS
-        sc["moves"] = [{"name": "hmc", "move": {"type": "hmc", "dt": round(period_fs / rnd.choice([12, 20, 30]), 5),
+        # from nearly always accepted (period/30) to a substantial rejection rate (period/4: omega*dt = 1.57, about 60%
+        # accepted): what a rejected trajectory leaves behind only matters in the latter regime (seeded C01-4)
+        sc["moves"] = [{"name": "hmc", "move": {"type": "hmc", "dt": round(period_fs / rnd.choice([4, 5, 6] if large_dt else [4, 5, 6, 8, 12, 30]), 5),
                                                 "nsteps": rnd.randint(3, 10)}}]
         sc["params"]["max_cycles"] = 1
     elif prop in ("Ball", "Box", "Sphere", "Translation"):
@@ -200,7 +202,8 @@ def row_gc(rnd, dilute=False, k=None):
     return sc
 
 
-ROWS = [("harmonic", lambda r: row_harmonic(r)), ("harmonic", lambda r: row_harmonic(r)), ("harmonic_hmc", lambda r: row_harmonic(r, True)),
+ROWS = [("harmonic", lambda r: row_harmonic(r)), ("harmonic_hmc_large_dt", lambda r: row_harmonic(r, True, large_dt=True)),
+        ("harmonic_hmc", lambda r: row_harmonic(r, True)),
         ("harmonic_single_composite", lambda r: row_harmonic(r, False, True)),
         ("dipole", row_dipole), ("dipole", row_dipole), ("npt", row_npt), ("npt", row_npt),
         ("gc_atom", lambda r: row_gc(r, False, 1)), ("gc_diatomic", lambda r: row_gc(r, False, 2)),
